@@ -40,6 +40,18 @@ def pool(tier):
         add(cI(v), lit_int(v))
     add(cI(3), "((2^70+3)-2^70)")
     add(cI(-2), "((2^70-2)-2^70)")
+    if tier == "thorough":
+        # every small operand also in big representation (arithmetic never re-normalises), and both neighbours of each word boundary
+        have = {c[1] for c, _ in P}
+        for v in (-7, -3, -1, 0, 1, 2, 4, 7, 10, 255, 256, 65535, 2 ** 31, 2 ** 32 - 1, 2 ** 62, 2 ** 63 - 1, -2 ** 63):
+            add(cI(v), "((2^70+%d)-2^70)" % v if v >= 0 else "((2^70-%d)-2^70)" % (-v))
+        for k in (31, 32, 62, 63, 64):
+            for sign in (1, -1):
+                for d in (-1, 0, 1):
+                    v = sign * (2 ** k + d)
+                    if str(v) not in have:
+                        have.add(str(v))
+                        add(cI(v), lit_int(v))
     fr = [(1, 2), (-1, 2), (1, 3), (-1, 3), (3, 2), (-3, 2), (7, 3), (-7, 3), (5, 4), (1, 7), (22, 7), (-22, 7),
           (2 ** 64 + 1, 2 ** 64), (1, 2 ** 70), (-(10 ** 30 + 1), 10 ** 15 + 3), (2 ** 100 + 1, 3),
           (2 ** 1100 + 1, 2 ** 1100), (1, 2 ** 1080)]
